@@ -470,3 +470,49 @@ Qed.
 
 Example ex_trailing_text_refused : zt_span fixed false z_init (toks_of (ex_span_tree "2") ++ [TBad]) = None.
 Proof. apply trailing_text_refused; [reflexivity|discriminate]. Qed.
+
+(* ------------------------------------------------------------------ the check's oracle on kind and events accepts the model *)
+Lemma anno_spec_event a e : anno_spec a = Some e -> anno_event a = [e].
+Proof.
+  unfold anno_spec, anno_event. destruct a as [s|x|b| |m|l]; try discriminate.
+  destruct (nodup_names m); [|discriminate].
+  destruct (jt_get "timestamp" m) as [[s|raw|b| |l|l]|]; try discriminate.
+  destruct (jt_get "value" m) as [[v|x|b| |l|l]|]; try discriminate.
+  destruct raw as [|c r]; [discriminate|]. unfold fj_uint64.
+  destruct (digits (String c r) 0) as [us|]; [|discriminate].
+  destruct ((0 <? us) && (us * 1000 <? two64)) eqn:E; [|discriminate]. intro H. inversion H; subst e.
+  apply andb_true_iff in E. destruct E as [E1 E2]. apply Z.ltb_lt in E1. apply Z.ltb_lt in E2.
+  assert (Hlt : us <? two64 = true) by (apply Z.ltb_lt; unfold two64 in *; lia). rewrite Hlt.
+  rewrite Z.mod_small by (unfold two64 in *; lia).
+  destruct (us * 1000 =? 0) eqn:E0; [apply Z.eqb_eq in E0; lia|reflexivity].
+Qed.
+
+(* whenever the text demands events (every annotation denotes one), the read path returns exactly those *)
+Theorem events_spec_sound_l : forall t evs, events_spec t = Some evs -> read_events t = evs.
+Proof.
+  intros t evs. unfold events_spec, read_events. destruct t as [s|x|b| |fs|l]; try discriminate.
+  destruct (nodup_names fs); [|discriminate].
+  destruct (jt_get "annotations" fs) as [[s|x|b| |l|l]|]; try discriminate.
+  - revert evs. induction l as [|a r IH]; intros evs H; cbn [mapM] in H.
+    + inversion H. reflexivity.
+    + destruct (anno_spec a) as [e|] eqn:Ea; [|discriminate]. destruct (mapM anno_spec r) as [es|]; [|discriminate].
+      inversion H; subst evs. cbn [flat_map]. rewrite (anno_spec_event a e Ea), (IH es eq_refl). reflexivity.
+  - intro H. inversion H. reflexivity.
+Qed.
+
+Lemma jget_abs k fs : jget k (abs_members fs) = option_map abs (jt_get k fs).
+Proof. induction fs as [|[k' v] r IH]; [reflexivity|]. cbn [abs_members map fst snd jget jt_get]. fold (abs_members r). destruct (String.eqb k k'); [reflexivity|exact IH]. Qed.
+
+(* ... and the kind the text names *)
+Theorem kind_spec_sound_l : forall q row t k r, kind_spec t = Some k -> parse_zipkin q row (abs t) = Some r -> rs_kind r = k.
+Proof.
+  intros q row t k r. unfold kind_spec. destruct t as [s|x|b| |fs|l]; try discriminate.
+  destruct (nodup_names fs); [|discriminate]. rewrite abs_TO. unfold parse_zipkin.
+  destruct (_ || _); [discriminate|].
+  destruct (read_endpoint "localEndpoint" (abs_members fs)) as [la ls]. destruct (read_endpoint "remoteEndpoint" (abs_members fs)) as [ra rs].
+  intros Hk Hr. inversion Hr; subst r. cbn [rs_kind]. unfold zipkin_kind, jget_str. rewrite jget_abs.
+  destruct (jt_get "kind" fs) as [[s|x|b| |l|l]|]; try discriminate; cbn [option_map abs]; inversion Hk; reflexivity.
+Qed.
+
+Example ex_events_spec : events_spec (ex_span_tree "2") = Some [(1700000000000000000, "cs")] /\ kind_spec (ex_span_tree "2") = Some 3.
+Proof. split; vm_compute; reflexivity. Qed.
